@@ -17,7 +17,7 @@ RULE = ('seeded value generator (ints of any magnitude, floats incl. -0.0/inf/na
         'distinct_nontrivial = distinct (value class, storage mode read from the row, side of T, disk class, store '
         'path) cells')
 DISTINCT = ('cells',)
-REQUIRED = ('mode_raw', 'mode_binary_file', 'mode_text_file', 'mode_pickle_inline', 'mode_pickle_file',
+REQUIRED = ('stores_over_expired_file', 'stores_over_live_file', 'stores_over_expired_inline', 'mode_raw', 'mode_binary_file', 'mode_text_file', 'mode_pickle_inline', 'mode_pickle_file',
             'streams', 'rejected_values', 'jsondisk_roundtrips', 'deque_roundtrips', 'index_roundtrips',
             'fanout_roundtrips', 'push_roundtrips', 'fault_injected_stores', 'configs_lookup_in_transaction',
             'configs_lookup_lock_free', 'relative_directory_roundtrips', 'relocated_directory_roundtrips',
@@ -213,6 +213,20 @@ def run_config(dc, sc, res, rng, T, proto, disk_name, level, budget):
             n += 1
             key = 'k%d' % n
             path = gen.pick(rng, ['set', 'add', 'setitem'])
+            # ---- what the key held before is a dimension: nothing, a live value (replaced by set / setitem), or a value
+            # whose time-to-live is over but whose row is still stored (replaced in place by set and by add alike)
+            prior = gen.pick(rng, ['absent', 'absent', 'live inline', 'live file', 'expired inline', 'expired file'])
+            if prior != 'absent' and not (path == 'add' and prior.startswith('live')):
+                old = 'o' * (T + 20) if prior.endswith('file') else 'old'
+                clock = probe.set_clock(probe.VClock())
+                cache.reset('cull_limit', 0)          # (so that storing the expiring item does not remove it again)
+                cache.set(key, old, expire=1.0 if prior.startswith('expired') else None, tag='old')
+                if prior.startswith('expired'):
+                    clock.advance(5.0)
+                cache.reset('cull_limit', 10)
+                res.count('stores_over_' + prior.replace(' ', '_'))
+            else:
+                prior = 'absent'
             # ---- store
             try:
                 if path == 'set':
@@ -224,9 +238,14 @@ def run_config(dc, sc, res, rng, T, proto, disk_name, level, budget):
             except Exception as exc:      # noqa: BLE001 - rejection is a legal outcome
                 res.count('rejected_values')
                 res.seen('cells', ('rejected', cls, disk_name, type(exc).__name__))
-                if key in cache or cache.get(key, 'ABSENT') != 'ABSENT':
+                if prior.startswith('live'):
+                    if cache.get(key, 'ABSENT') != old:
+                        res.violation('store of %s raised %s and the value stored before is %r' % (
+                            describe(v), type(exc).__name__, cache.get(key, 'ABSENT')),
+                            {'config': cfg_label, 'class': cls, 'value': v, 'prior': prior})
+                elif key in cache or cache.get(key, 'ABSENT') != 'ABSENT':
                     res.violation('store of %s raised %s but the key exists afterwards' % (describe(v), type(exc).__name__),
-                                  {'config': cfg_label, 'class': cls, 'value': v})
+                                  {'config': cfg_label, 'class': cls, 'value': v, 'prior': prior})
                 # rejected over an existing value: the old value must survive
                 cache.set(key, 'old')
                 try:
@@ -237,13 +256,14 @@ def run_config(dc, sc, res, rng, T, proto, disk_name, level, budget):
                                       {'config': cfg_label, 'class': cls, 'got': cache.get(key)})
                 cache.pop(key)
                 continue
-            row = obs.rows()[-1]      # a fresh key is always the newest row
+            rows_now = obs.rows()
+            row = rows_now[-1] if json_only else [r for r in rows_now if observe.row_key(r['key'], r['raw']) == key][0]
             mode = MODE_NAMES.get(row['mode'], str(row['mode']))
             if mode == 'pickle':
                 mode = 'pickle_file' if row['filename'] else 'pickle_inline'
             res.count('mode_' + mode)
             side = 'ge_T' if row['filename'] else 'lt_T'
-            res.seen('cells', (cls, mode, side, disk_name, path))
+            res.seen('cells', (cls, mode, side, disk_name, path, prior))
             if json_only:
                 res.count('jsondisk_roundtrips')
             # ---- every accessor
